@@ -29,22 +29,115 @@ fn still_fails(script: &Script, class: &str) -> Option<Violation> {
     }
 }
 
-fn shrink_ex(e: &Ex) -> Vec<Ex> {
-    // candidate simplifications of one expression (shallow; applied repeatedly)
+/// children of a node and a function that rebuilds the node from (possibly replaced) children
+fn parts(e: &Ex) -> (Vec<Ex>, Box<dyn Fn(Vec<Ex>) -> Ex>) {
+    fn b(x: &Ex) -> Box<Ex> {
+        Box::new(x.clone())
+    }
+    match e {
+        Ex::List(xs) => (xs.clone(), Box::new(|c| Ex::List(c))),
+        Ex::CommaSeq(xs) => (xs.clone(), Box::new(|c| Ex::CommaSeq(c))),
+        Ex::Seq(xs, t) => {
+            let t = *t;
+            (xs.clone(), Box::new(move |c| Ex::Seq(c, t)))
+        }
+        Ex::Call(f, args) => {
+            let mut ch = vec![(**f).clone()];
+            ch.extend(args.iter().cloned());
+            (ch, Box::new(|mut c| {
+                let f = c.remove(0);
+                Ex::Call(Box::new(f), c)
+            }))
+        }
+        Ex::Index(x, i) => (vec![(**x).clone(), (**i).clone()], Box::new(|c| Ex::Index(b(&c[0]), b(&c[1])))),
+        Ex::Bin(l, op, r) => {
+            let op = op.clone();
+            (vec![(**l).clone(), (**r).clone()], Box::new(move |c| Ex::Bin(b(&c[0]), op.clone(), b(&c[1]))))
+        }
+        Ex::Chain(first, rest) => {
+            let ops: Vec<String> = rest.iter().map(|(o, _)| o.clone()).collect();
+            let mut ch = vec![(**first).clone()];
+            ch.extend(rest.iter().map(|(_, x)| x.clone()));
+            (ch, Box::new(move |mut c| {
+                let f = c.remove(0);
+                Ex::Chain(Box::new(f), ops.iter().cloned().zip(c.into_iter()).collect())
+            }))
+        }
+        Ex::And(a, c2) => (vec![(**a).clone(), (**c2).clone()], Box::new(|c| Ex::And(b(&c[0]), b(&c[1])))),
+        Ex::Or(a, c2) => (vec![(**a).clone(), (**c2).clone()], Box::new(|c| Ex::Or(b(&c[0]), b(&c[1])))),
+        Ex::Coalesce(a, c2) => (vec![(**a).clone(), (**c2).clone()], Box::new(|c| Ex::Coalesce(b(&c[0]), b(&c[1])))),
+        Ex::If(c0, a, e2) => match e2 {
+            Some(e2) => (
+                vec![(**c0).clone(), (**a).clone(), (**e2).clone()],
+                Box::new(|c| Ex::If(b(&c[0]), b(&c[1]), Some(b(&c[2])))),
+            ),
+            None => (vec![(**c0).clone(), (**a).clone()], Box::new(|c| Ex::If(b(&c[0]), b(&c[1]), None))),
+        },
+        Ex::While(c0, body) => (vec![(**c0).clone(), (**body).clone()], Box::new(|c| Ex::While(b(&c[0]), b(&c[1])))),
+        Ex::For(clauses, body) => {
+            let clauses = clauses.clone();
+            match &**body {
+                ForBody::Do(x) => (vec![x.clone()], Box::new(move |c| Ex::For(clauses.clone(), Box::new(ForBody::Do(c[0].clone()))))),
+                ForBody::Yield(x, into) => {
+                    let into = into.clone();
+                    (vec![x.clone()], Box::new(move |c| Ex::For(clauses.clone(), Box::new(ForBody::Yield(c[0].clone(), into.clone())))))
+                }
+                ForBody::YieldItem(k, v, into) => {
+                    let into = into.clone();
+                    (vec![k.clone(), v.clone()], Box::new(move |c| {
+                        Ex::For(clauses.clone(), Box::new(ForBody::YieldItem(c[0].clone(), c[1].clone(), into.clone())))
+                    }))
+                }
+            }
+        }
+        Ex::Try(body, pat, h) => {
+            let pat = pat.clone();
+            (vec![(**body).clone(), (**h).clone()], Box::new(move |c| Ex::Try(b(&c[0]), pat.clone(), b(&c[1]))))
+        }
+        Ex::Throw(x) => (vec![(**x).clone()], Box::new(|c| Ex::Throw(b(&c[0])))),
+        Ex::Freeze(x) => (vec![(**x).clone()], Box::new(|c| Ex::Freeze(b(&c[0])))),
+        Ex::Lambda(params, body) => {
+            let params = params.clone();
+            (vec![(**body).clone()], Box::new(move |c| Ex::Lambda(params.clone(), b(&c[0]))))
+        }
+        Ex::Switch(scrut, arms) => {
+            let pats: Vec<Lv> = arms.iter().map(|(p, _)| p.clone()).collect();
+            let mut ch = vec![(**scrut).clone()];
+            ch.extend(arms.iter().map(|(_, x)| x.clone()));
+            (ch, Box::new(move |mut c| {
+                let s = c.remove(0);
+                Ex::Switch(Box::new(s), pats.iter().cloned().zip(c.into_iter()).collect())
+            }))
+        }
+        Ex::Assign(ev, l, rhs) => {
+            let (ev, l) = (*ev, l.clone());
+            (vec![(**rhs).clone()], Box::new(move |c| Ex::Assign(ev, l.clone(), b(&c[0]))))
+        }
+        Ex::OpAssign(ev, l, op, rhs) => {
+            let (ev, l, op) = (*ev, l.clone(), op.clone());
+            (vec![(**rhs).clone()], Box::new(move |c| Ex::OpAssign(ev, l.clone(), op.clone(), b(&c[0]))))
+        }
+        Ex::Return(Some(x)) => (vec![(**x).clone()], Box::new(|c| Ex::Return(Some(b(&c[0]))))),
+        Ex::Break(n, Some(x)) => {
+            let n = *n;
+            (vec![(**x).clone()], Box::new(move |c| Ex::Break(n, Some(b(&c[0])))))
+        }
+        other => {
+            let o = other.clone();
+            (vec![], Box::new(move |_| o.clone()))
+        }
+    }
+}
+
+/// simplifications of the node itself
+fn local_simpl(e: &Ex) -> Vec<Ex> {
     let mut out = Vec::new();
     match e {
-        Ex::List(xs) if !xs.is_empty() => {
+        Ex::List(xs) | Ex::CommaSeq(xs) => {
             for i in 0..xs.len() {
                 let mut ys = xs.clone();
                 ys.remove(i);
-                out.push(Ex::List(ys));
-            }
-            for (i, x) in xs.iter().enumerate() {
-                for s in shrink_ex(x) {
-                    let mut ys = xs.clone();
-                    ys[i] = s;
-                    out.push(Ex::List(ys));
-                }
+                out.push(if let Ex::List(_) = e { Ex::List(ys) } else { Ex::CommaSeq(ys) });
             }
         }
         Ex::Dict(def, kvs) => {
@@ -56,23 +149,72 @@ fn shrink_ex(e: &Ex) -> Vec<Ex> {
                 ys.remove(i);
                 out.push(Ex::Dict(def.clone(), ys));
             }
-            for (i, (k, v)) in kvs.iter().enumerate() {
-                if let Some(v) = v {
-                    for s in shrink_ex(v) {
-                        let mut ys = kvs.clone();
-                        ys[i] = (k.clone(), Some(s));
-                        out.push(Ex::Dict(def.clone(), ys));
-                    }
+        }
+        Ex::Seq(xs, t) => {
+            if xs.len() == 1 {
+                out.push(xs[0].clone());
+            }
+            if xs.len() > 1 {
+                for i in 0..xs.len() {
+                    let mut ys = xs.clone();
+                    ys.remove(i);
+                    out.push(Ex::Seq(ys, *t));
                 }
             }
         }
-        Ex::Call(f, args) => {
-            for (i, x) in args.iter().enumerate() {
-                for s in shrink_ex(x) {
-                    let mut ys = args.clone();
-                    ys[i] = s;
-                    out.push(Ex::Call(f.clone(), ys));
+        Ex::If(c, a, b) => {
+            out.push((**a).clone());
+            if let Some(b) = b {
+                out.push((**b).clone());
+                out.push(Ex::If(c.clone(), a.clone(), None));
+            }
+            out.push((**c).clone());
+        }
+        Ex::While(_, body) => out.push((**body).clone()),
+        Ex::For(clauses, body) => {
+            if clauses.len() > 1 {
+                for i in 0..clauses.len() {
+                    let mut cs = clauses.clone();
+                    cs.remove(i);
+                    out.push(Ex::For(cs, body.clone()));
                 }
+            }
+            if let ForBody::Yield(x, Some(_)) = &**body {
+                out.push(Ex::For(clauses.clone(), Box::new(ForBody::Yield(x.clone(), None))));
+            }
+        }
+        Ex::Try(body, _, h) => {
+            out.push((**body).clone());
+            out.push((**h).clone());
+        }
+        Ex::Switch(scrut, arms) => {
+            if arms.len() > 1 {
+                for i in 0..arms.len() {
+                    let mut a2 = arms.clone();
+                    a2.remove(i);
+                    out.push(Ex::Switch(scrut.clone(), a2));
+                }
+            }
+            for (_, body) in arms {
+                out.push(body.clone());
+            }
+        }
+        Ex::Bin(l, _, r) | Ex::And(l, r) | Ex::Or(l, r) | Ex::Coalesce(l, r) => {
+            out.push((**l).clone());
+            out.push((**r).clone());
+        }
+        Ex::Chain(first, rest) => {
+            if rest.len() > 1 {
+                let mut r2 = rest.clone();
+                r2.pop();
+                out.push(Ex::Chain(first.clone(), r2));
+            }
+            out.push((**first).clone());
+        }
+        Ex::Index(x, _) | Ex::Slice(x, _, _) => out.push((**x).clone()),
+        Ex::Call(_, args) => {
+            for a in args {
+                out.push(a.clone());
             }
         }
         Ex::Num(NumLit::Int(n)) if *n != 0 && *n != 1 => {
@@ -81,24 +223,31 @@ fn shrink_ex(e: &Ex) -> Vec<Ex> {
         }
         Ex::Num(NumLit::Pow2(_)) | Ex::Num(NumLit::Big(_)) => out.push(Ex::Num(NumLit::Int(1))),
         Ex::Str(s) if s.len() > 1 => out.push(Ex::Str("a".to_string())),
-        Ex::Seq(xs, t) if xs.len() > 1 => {
-            for i in 0..xs.len() {
-                let mut ys = xs.clone();
-                ys.remove(i);
-                out.push(Ex::Seq(ys, *t));
-            }
-        }
-        Ex::Assign(ev, l, rhs) => {
-            for s in shrink_ex(rhs) {
-                out.push(Ex::Assign(*ev, l.clone(), Box::new(s)));
-            }
-        }
-        Ex::OpAssign(ev, l, op, rhs) => {
-            for s in shrink_ex(rhs) {
-                out.push(Ex::OpAssign(*ev, l.clone(), op.clone(), Box::new(s)));
-            }
-        }
+        Ex::EvalOf(x) => out.push((**x).clone()),
+        Ex::Return(Some(x)) | Ex::Break(_, Some(x)) | Ex::Throw(x) => out.push((**x).clone()),
         _ => {}
+    }
+    // a literal in place of a compound expression
+    if !matches!(e, Ex::Num(_) | Ex::Null | Ex::Str(_) | Ex::Var(_) | Ex::Assign(..) | Ex::OpAssign(..) | Ex::StructDef(..) | Ex::Swap(..)) {
+        out.push(Ex::Num(NumLit::Int(0)));
+    }
+    out
+}
+
+/// every variant of `e` in which exactly one node has been replaced by one of its simplifications,
+/// outermost nodes first
+fn shrink_ex(e: &Ex) -> Vec<Ex> {
+    let mut out = local_simpl(e);
+    let (children, rebuild) = parts(e);
+    for i in 0..children.len() {
+        for c in shrink_ex(&children[i]) {
+            let mut ch = children.clone();
+            ch[i] = c;
+            out.push(rebuild(ch));
+            if out.len() > 400 {
+                return out;
+            }
+        }
     }
     out
 }
